@@ -149,6 +149,7 @@ func genSeqList(t *rapid.T) []uint16 {
 }
 
 func TestC12(t *testing.T) {
+	defer harness.Uncaught(t)
 	// (i) generated lists
 	harness.RapidCheck(t, harness.Scale(15000, 120000), 1, func(rt *rapid.T) {
 		c := c12List{Seqs: genSeqList(rt)}
